@@ -34,7 +34,7 @@ func RunC05(c *Ctx) {
 	}
 	// two and three concurrent compactions of disjoint / overlapping ranges
 	triples := [][3]string{{"autocompact", "autocompact", "add,add"}, {"compactall", "autocompact", "add"}, {"autocompact", "compactall", "add,add"}, {"autocompact", "add,add,autocompact", "compactall"}}
-	trecs := []eng.Recipe{{60, 0, 0}, {200, 40, 0, 0}, {200, 0, 0, 0, 0}}
+	trecs := []eng.Recipe{{60, 0, 0}, {200, 40, 0, 0}, {200, 0, 0, 0, 0}, {-1, -2, 0, 0}}
 	step := 3
 	if c.Thorough() {
 		step = 1
@@ -178,6 +178,23 @@ func RunC06(c *Ctx) {
 	recs := []eng.Recipe{{}, {0}, {0, 0}, {60, 0, 0}, {200, 40, 0, 0}, {0, 0, 0, 0, 0, 0, 0}}
 	idx := 0
 	total := 0
+	// compactions whose result is empty (everything in the range cancels out)
+	for ri, rec := range []eng.Recipe{{-1, -2}, {-1, -2, 0}, {-1, -2, 0, 0}} {
+		for oi, op := range []string{"compactall", "cr01", "autocompact", "add"} {
+			for ci, cont := range []string{"fresh,add,fresh", "add,compactall,fresh"} {
+				if (op == "cr01" && !haveCompactRange) || (ri == 0 && op == "add") {
+					idx++
+					continue
+				}
+				use := c.Thorough() || (ri+oi+ci)%2 == 0
+				if use && c.Mine(idx) {
+					n, _ := e.crashSweep("crash-sweep(empty compaction result)", idx, engCfg(ri+oi), rec, op, cont, true)
+					total += n
+				}
+				idx++
+			}
+		}
+	}
 	for ri, rec := range recs {
 		for oi, op := range ops {
 			for ci, cont := range conts {
@@ -255,6 +272,21 @@ func RunC10(c *Ctx) {
 			}
 		}
 	}
+	// the handle is behind by several tables; a compaction of the newest ones lands
+	// between two table opens of its reload (multi-table Additions do not auto-compact,
+	// so the new tables stay separate)
+	if haveCompactRange {
+		for pi, pro := range []string{"addmulti3", "addmulti3,add", "addmulti,addmulti"} {
+			for ai, a := range []string{"add,read", "addempty,read", "clean,read"} {
+				for bi, b := range []string{"cr45", "cr45,add", "cr34", "cr35", "cr46"} {
+					if c.Mine(idx) {
+						e.sweepStale("behind-by-several-tables-sweep", idx, engCfg(pi+ai+bi), eng.Recipe{60, 0, 0}, pro, a, b)
+					}
+					idx++
+				}
+			}
+		}
+	}
 	kinds := []string{"add", "add", "read", "read", "read", "compactall", "autocompact", "reopen", "addbig", "compactexpiry", "clean"}
 	n := c.N(2500, 120000)
 	for i := 0; i < n; i++ {
@@ -285,7 +317,7 @@ func RunC16(c *Ctx) {
 	r.Rule = engRule("Deciding monitor for C16: M-own. Ledger of every file a process created (locks, *.reftmp, tables renamed into place but not yet listed, tables its commit dropped from the list): whenever a process returns from an API call its ledger must be empty, and when all processes are idle the directory must be exactly tables.list plus the tables it names (checked before and after the handles are closed); after crashes of OTHER processes Close and Clean of a live process must not remove a listed table, must not panic and return nil unless a dead process's list lock exists. Sequential histories with failed Adds, rejected transactions and empty stacks are part of the same check.")
 	e := newEngRunner(c)
 	defer e.cleanup()
-	aKinds := []string{"add", "addmulti", "compactall", "autocompact", "clean", "close", "addbad", "compactexpiry", "addempty"}
+	aKinds := []string{"add", "addmulti", "compactall", "autocompact", "clean", "close", "addbad", "compactexpiry", "addempty", "addmultibad", "addmultiabandon"}
 	bSeqs := []string{"add", "compactall", "autocompact", "add,compactall", "clean", "close", "addmulti"}
 	recs := []eng.Recipe{{}, {0, 0}, {60, 0, 0}, {200, 40, 0, 0}}
 	cases := pairCases(aKinds, bSeqs, recs, true)
